@@ -56,14 +56,32 @@ def peptides_event(pp, tid, A, rule, mc, semi, conserve, rnd, generator=None):
             items.append({"span": list(span2), "text": ann.serialize(), "ann": project.ann(ann),
                           "reparseEq": bool(o2 == "ret" and back == ann and ann == back), "searched": searched, "found": found,
                           "mass": fix(pp.mass(ann.serialize(), charge=0)) if conserve else [0, 0]})
-        return items, [list(x) for x in sp], list(st), [a.serialize() for a in an], [x[0] for x in ss], prot
+        # peptides handed out must be independent of the protein and of each other: edit one, digest the same object again
+        prot_obj = anngen.build(pp, A)
+        first = list(getattr(pp, generator)(prot_obj, return_type="annotation")) if generator else \
+            list(pp.digest(prot_obj, rx, missed_cleavages=mc, semi=semi, return_type="annotation"))
+        before = [x.serialize() for x in first]
+        if first:
+            from peptacular.proforma.proforma_dataclasses import Mod
+            victim = first[0]
+            victim.add_nterm_mods([Mod("EDITED", 1)], append=True)
+            victim.add_cterm_mods([Mod("EDITED", 1)], append=True)
+            victim.add_static_mods([Mod("[EDITED]@K", 1)], append=True)
+            victim.add_isotope_mods([Mod("13C", 1)], append=True)
+            victim.add_labile_mods([Mod("EDITED", 1)], append=True)
+        again = list(getattr(pp, generator)(prot_obj, return_type="annotation")) if generator else \
+            list(pp.digest(prot_obj, rx, missed_cleavages=mc, semi=semi, return_type="annotation"))
+        independent = bool([x.serialize() for x in again] == before and [x.serialize() for x in first[1:]] == before[1:]
+                           and prot_obj.serialize() == text)
+        return items, [list(x) for x in sp], list(st), [a.serialize() for a in an], [x[0] for x in ss], prot, independent
     o, r = call(f)
     ev = {"tid": tid, "k": "peptides", "A": A, "text": text, "rule": rule or named("no-cleave"), "mc": mc, "semi": semi,
           "conserve": bool(conserve), "checkSpans": generator is None, "generator": generator or "", "out": o}
     if o == "ret":
-        ev.update(items=r[0], spansOnly=r[1], strsOnly=r[2], annTexts=r[3], strSpanTexts=r[4], protMass=fix(r[5]))
+        ev.update(items=r[0], spansOnly=r[1], strsOnly=r[2], annTexts=r[3], strSpanTexts=r[4], protMass=fix(r[5]),
+                  independent=r[6])
     else:
-        ev.update(items=[], spansOnly=[], strsOnly=[], annTexts=[], strSpanTexts=[], protMass=[0, 0])
+        ev.update(items=[], spansOnly=[], strsOnly=[], annTexts=[], strSpanTexts=[], protMass=[0, 0], independent=True)
     return ev
 
 
